@@ -4,7 +4,7 @@
    translator (Generated/GC17.v: DefaultPolicy numbers, DefaultPredicate status
    branch, whether the jitter draw is guarded) and by the correspondence run. *)
 From Coq Require Import QArith.
-From Oras Require Import Base.Prelude Generated.GC17 Model.Retry Proofs.Retry.
+From Oras Require Import Base.Prelude Base.RetryTypes Generated.GC17 Model.Retry Proofs.Retry.
 Open Scope Z_scope.
 
 (* --- pacing ---------------------------------------------------------- *)
@@ -16,6 +16,23 @@ Theorem C17_pause_bounds :
     p_min p <= p_max p -> generic_retry p attempt o = DWait d -> p_min p <= d <= p_max p.
 Proof. exact generic_retry_bounds. Qed.
 Print Assumptions C17_pause_bounds.
+
+(* GenericPolicy.Retry as translated statement by statement from policy.go
+   (Generated.GC17.generated_retry) is the decision with the clamp in closed form *)
+Theorem C17_retry_decision_closed_form :
+  forall p attempt o,
+    generic_retry p attempt o =
+    if attempt >=? p_max_retry p then DStop
+    else match p_pred p o with
+         | PFail => DFail
+         | PStop => DStop
+         | PRetry => match p_backoff p attempt o with
+                     | BPanic => DPanic
+                     | BRet x => DWait (clamp (p_min p) (p_max p) x)
+                     end
+         end.
+Proof. exact generic_retry_eq. Qed.
+Print Assumptions C17_retry_decision_closed_form.
 
 (* the bounds are meant for MinWait <= MaxWait; for an ill-formed policy (MinWait > MaxWait)
    the code as written yields MaxWait for every pause *)
